@@ -177,6 +177,14 @@ func c06Exprs(c *core.Ctx, root *packages.Package) {
 				if core.IsBuiltin(info, pp, "len") || core.IsBuiltin(info, pp, "make") || core.IsBuiltin(info, pp, "cap") {
 					return
 				}
+				// handed to a helper that only copies: every element of that parameter is used through CopyReset()
+				if g := core.Callee(info, pp); g != nil && g.Pkg() == root.Types {
+					for i, a := range pp.Args {
+						if a == cur && c06CopyOnlyParam(c, info, g, i) {
+							return
+						}
+					}
+				}
 			case *ast.BinaryExpr:
 				other := pp.X
 				if other == cur {
@@ -226,6 +234,73 @@ func c06Exprs(c *core.Ctx, root *packages.Package) {
 			c.Ok("C06.exprs", name)
 		}
 	}
+}
+
+// c06CopyOnlyParam: the i-th parameter of g (a slice of expressions) is only measured, ranged over, and its elements
+// only compared with nil or copied with CopyReset().
+func c06CopyOnlyParam(c *core.Ctx, info *types.Info, g *types.Func, i int) bool {
+	d := declOfFunc(c.P, g)
+	if d == nil || d.Decl.Body == nil {
+		return false
+	}
+	sig := g.Type().(*types.Signature)
+	if i >= sig.Params().Len() {
+		return false
+	}
+	param := sig.Params().At(i)
+	parents := parentMap(d.Decl.Body)
+	elems := map[types.Object]bool{}
+	ok := true
+	copies := false
+	ast.Inspect(d.Decl.Body, func(n ast.Node) bool {
+		if rs, isRange := n.(*ast.RangeStmt); isRange {
+			if id, isID := ast.Unparen(rs.X).(*ast.Ident); isID && info.Uses[id] == param {
+				if v, isV := rs.Value.(*ast.Ident); isV && v.Name != "_" {
+					elems[info.Defs[v]] = true
+				}
+			}
+		}
+		return true
+	})
+	ast.Inspect(d.Decl.Body, func(n ast.Node) bool {
+		id, isID := n.(*ast.Ident)
+		if !isID {
+			return true
+		}
+		obj := info.Uses[id]
+		switch {
+		case obj == param:
+			switch pp := parents[id].(type) {
+			case *ast.RangeStmt:
+				if pp.X != ast.Expr(id) {
+					ok = false
+				}
+			case *ast.CallExpr:
+				if !core.IsBuiltin(info, pp, "len") && !core.IsBuiltin(info, pp, "cap") {
+					ok = false
+				}
+			default:
+				ok = false
+			}
+		case elems[obj]:
+			switch pp := parents[id].(type) {
+			case *ast.SelectorExpr:
+				if pp.Sel.Name == "CopyReset" {
+					copies = true
+				} else {
+					ok = false
+				}
+			case *ast.BinaryExpr:
+				if !(pp.Op == token.EQL || pp.Op == token.NEQ) {
+					ok = false
+				}
+			default:
+				ok = false
+			}
+		}
+		return true
+	})
+	return ok && copies
 }
 
 func sortedVals(m map[*types.Var]string) []string {
